@@ -35,6 +35,8 @@ pub struct Case {
     pub limit: u64,
     pub expect_timer: bool,
     pub clock_case: Option<(u64, u64, u64, u64)>,
+    /// position to search (None = the quiet two-king roots)
+    pub fen: Option<&'static str>,
 }
 
 pub fn cases(tier: &str) -> Vec<Case> {
@@ -45,17 +47,17 @@ pub fn cases(tier: &str) -> Vec<Case> {
             for &bt in &g {
                 for &wi in &g {
                     for &bi in &g {
-                        v.push(Case { white, go: format!("go wtime {} btime {} winc {} binc {}", wt, bt, wi, bi), limit: if white { wt } else { bt }, expect_timer: true, clock_case: Some((wt, bt, wi, bi)) });
+                        v.push(Case { white, go: format!("go wtime {} btime {} winc {} binc {}", wt, bt, wi, bi), limit: if white { wt } else { bt }, expect_timer: true, clock_case: Some((wt, bt, wi, bi)), fen: None });
                     }
                 }
             }
         }
         for &mt in &g {
-            v.push(Case { white, go: format!("go movetime {}", mt), limit: mt, expect_timer: true, clock_case: None });
-            v.push(Case { white, go: format!("go movetime {} depth 1", mt), limit: mt, expect_timer: true, clock_case: None });
-            v.push(Case { white, go: format!("go movetime {} infinite", mt), limit: mt, expect_timer: false, clock_case: None });
+            v.push(Case { white, go: format!("go movetime {}", mt), limit: mt, expect_timer: true, clock_case: None, fen: None });
+            v.push(Case { white, go: format!("go movetime {} depth 1", mt), limit: mt, expect_timer: true, clock_case: None, fen: None });
+            v.push(Case { white, go: format!("go movetime {} infinite", mt), limit: mt, expect_timer: false, clock_case: None, fen: None });
             for &c in &g {
-                v.push(Case { white, go: format!("go wtime {} btime {} winc 0 binc 0 movetime {}", c, c, mt), limit: mt, expect_timer: true, clock_case: None });
+                v.push(Case { white, go: format!("go wtime {} btime {} winc 0 binc 0 movetime {}", c, c, mt), limit: mt, expect_timer: true, clock_case: None, fen: None });
             }
         }
         // partial and permuted parameter lists: every UCI time parameter is optional ("a GUI can send" the clocks without
@@ -63,30 +65,67 @@ pub fn cases(tier: &str) -> Vec<Case> {
         let g2: [u64; 6] = [0, 1, 150, 7_500, 60_000, u64::MAX];
         let (me, opp, myinc, oppinc) = if white { ("wtime", "btime", "winc", "binc") } else { ("btime", "wtime", "binc", "winc") };
         for &x in &g2 {
-            v.push(Case { white, go: format!("go {} {}", me, x), limit: x, expect_timer: true, clock_case: None });
-            v.push(Case { white, go: format!("go {} {} movestogo 40", me, x), limit: x, expect_timer: true, clock_case: None });
+            v.push(Case { white, go: format!("go {} {}", me, x), limit: x, expect_timer: true, clock_case: None, fen: None });
+            v.push(Case { white, go: format!("go {} {} movestogo 40", me, x), limit: x, expect_timer: true, clock_case: None, fen: None });
             for &y in &g2 {
-                v.push(Case { white, go: format!("go wtime {} btime {}", if white { x } else { y }, if white { y } else { x }), limit: x, expect_timer: true, clock_case: None });
-                v.push(Case { white, go: format!("go {} {} {} {}", me, x, myinc, y), limit: x, expect_timer: true, clock_case: None });
-                v.push(Case { white, go: format!("go {} {} {} {} {} {}", me, x, opp, x, myinc, y), limit: x, expect_timer: true, clock_case: None });
-                v.push(Case { white, go: format!("go {} {} {} {} {} {}", me, x, opp, x, oppinc, y), limit: x, expect_timer: true, clock_case: None });
-                v.push(Case { white, go: format!("go {} {} {} {} {} {} {} {}", oppinc, y, myinc, y, opp, y, me, x), limit: x, expect_timer: true, clock_case: None });
-                v.push(Case { white, go: format!("go wtime {} btime {} winc {} binc {} movestogo 1", x, x, y, y), limit: x, expect_timer: true, clock_case: None });
+                v.push(Case { white, go: format!("go wtime {} btime {}", if white { x } else { y }, if white { y } else { x }), limit: x, expect_timer: true, clock_case: None, fen: None });
+                v.push(Case { white, go: format!("go {} {} {} {}", me, x, myinc, y), limit: x, expect_timer: true, clock_case: None, fen: None });
+                v.push(Case { white, go: format!("go {} {} {} {} {} {}", me, x, opp, x, myinc, y), limit: x, expect_timer: true, clock_case: None, fen: None });
+                v.push(Case { white, go: format!("go {} {} {} {} {} {}", me, x, opp, x, oppinc, y), limit: x, expect_timer: true, clock_case: None, fen: None });
+                v.push(Case { white, go: format!("go {} {} {} {} {} {} {} {}", oppinc, y, myinc, y, opp, y, me, x), limit: x, expect_timer: true, clock_case: None, fen: None });
+                v.push(Case { white, go: format!("go wtime {} btime {} winc {} binc {} movestogo 1", x, x, y, y), limit: x, expect_timer: true, clock_case: None, fen: None });
+            }
+        }
+        // the budget is a matter of the clocks alone: the same bound must hold in every kind of position (in check,
+        // a single reply, mate in one on the board, rich middlegame, bare kings with a pawn race)
+        let g3: [u64; 7] = [0, 150, 300, 1_000, 7_500, 60_000, u64::MAX];
+        for fen in position_family(white) {
+            for &x in &g3 {
+                v.push(Case { white, go: format!("go movetime {}", x), limit: x, expect_timer: true, clock_case: None, fen: Some(fen) });
+                for &y in &g3 {
+                    for &i in &[0u64, 1_000, 60_000] {
+                        v.push(Case { white, go: format!("go wtime {} btime {} winc {} binc {}", if white { x } else { y }, if white { y } else { x }, i, i), limit: x, expect_timer: true, clock_case: None, fen: Some(fen) });
+                    }
+                }
             }
         }
         for &c in &g {
-            v.push(Case { white, go: format!("go wtime {} btime {} winc 0 binc 0 depth 1", c, c), limit: c, expect_timer: true, clock_case: Some((c, c, 0, 0)) });
-            v.push(Case { white, go: format!("go wtime {} btime {} winc 0 binc 0 infinite", c, c), limit: c, expect_timer: false, clock_case: None });
+            v.push(Case { white, go: format!("go wtime {} btime {} winc 0 binc 0 depth 1", c, c), limit: c, expect_timer: true, clock_case: Some((c, c, 0, 0)), fen: None });
+            v.push(Case { white, go: format!("go wtime {} btime {} winc 0 binc 0 infinite", c, c), limit: c, expect_timer: false, clock_case: None, fen: None });
         }
     }
     v
+}
+
+/// positions of every "kind" for the side to move: in check with several replies, in check with a single reply, mate
+/// in one available, castling/en-passant available, middlegame, the opponent in a mating net
+pub fn position_family(white: bool) -> Vec<&'static str> {
+    if white {
+        vec![
+            "rnbqk1nr/pppp1ppp/4p3/8/1bPP4/8/PP2PPPP/RNBQKBNR w KQkq - 1 3",
+            "4k3/8/8/8/8/8/4r3/4K3 w - - 0 1",
+            "8/8/8/8/8/1k6/r7/K7 w - - 0 1",
+            "6k1/5ppp/8/8/8/8/5PPP/3R2K1 w - - 0 1",
+            "r3k2r/p1ppqpb1/bn2pnp1/3PN3/1p2P3/2N2Q1p/PPPBBPPP/R3K2R w KQkq - 0 1",
+            "4k3/8/8/3pP3/8/8/8/4K3 w - d6 0 1",
+        ]
+    } else {
+        vec![
+            "rnbqkbnr/ppp2ppp/8/1B1pp3/4P3/8/PPPP1PPP/RNBQK1NR b KQkq - 1 3",
+            "4k3/4R3/8/8/8/8/8/4K3 b - - 0 1",
+            "k7/R7/1K6/8/8/8/8/8 b - - 0 1",
+            "3r2k1/5ppp/8/8/8/8/5PPP/6K1 b - - 0 1",
+            "r3k2r/p1ppqpb1/bn2pnp1/3PN3/1p2P3/2N2Q1p/PPPBBPPP/R3K2R b KQkq - 0 1",
+            "4k3/8/8/8/3Pp3/8/8/4K3 b - d3 0 1",
+        ]
+    }
 }
 
 const ROOT_W: &str = "7k/8/8/8/8/8/8/K7 w - - 0 1";
 const ROOT_B: &str = "k7/8/8/8/8/8/8/7K b - - 0 1";
 
 fn rj(c: &Case) -> J {
-    json::obj(vec![("kind", json::s("c13-case")), ("go", json::s(c.go.clone())), ("white_to_move", J::Bool(c.white)), ("flavour", json::s(flavour()))])
+    json::obj(vec![("kind", json::s("c13-case")), ("go", json::s(c.go.clone())), ("white_to_move", J::Bool(c.white)), ("flavour", json::s(flavour())), ("fen", match c.fen { Some(f) => json::s(f), None => J::Null })])
 }
 
 /// run a batch of cases in one engine session (default schedule); returns allotted budgets per case (None = no timer)
@@ -95,7 +134,7 @@ pub fn run_batch(batch: &[Case], acc: &mut Acc) -> Vec<Option<u128>> {
     // one session per case group; a case that kills the session is isolated by running cases singly afterwards
     let mut script: Vec<Line> = vec![];
     for c in batch {
-        script.push(line(&format!("position fen {}", if c.white { ROOT_W } else { ROOT_B }), Guard::WhenAnswered));
+        script.push(line(&format!("position fen {}", c.fen.unwrap_or(if c.white { ROOT_W } else { ROOT_B })), Guard::WhenAnswered));
         script.push(line(&c.go, Guard::WhenAnswered));
         if !c.expect_timer {
             script.push(line("stop", Guard::Now));
@@ -160,7 +199,7 @@ pub fn judge(c: &Case, budget: Option<u128>, acc: &mut Acc) {
         acc.outcome("budget above the time available");
         // key by shape, not by value: one defect, one finding per flavour and mode
         let mode = if c.clock_case.is_some() { "clock" } else { "movetime" };
-        acc.violation(format!("{}|over|{}|{}", flavour(), mode, c.go), format!("[{} build] `{}` ({} to move): the engine allots itself {} ms but only {} ms are available", flavour(), c.go, if c.white { "white" } else { "black" }, b, c.limit), rj(c));
+        acc.violation(format!("{}|over|{}|{}|{}", flavour(), mode, c.go, c.fen.unwrap_or("")), format!("[{} build] `{}` ({} to move{}): the engine allots itself {} ms but only {} ms are available", flavour(), c.go, if c.white { "white" } else { "black" }, c.fen.map(|f| format!(", position {}", f)).unwrap_or_default(), b, c.limit), rj(c));
     } else {
         acc.outcome(if b == 0 { "budget zero" } else if b == c.limit as u128 { "budget == limit" } else { "budget within limit" });
     }
@@ -266,7 +305,7 @@ pub fn replay(j: &J) -> Result<Acc, String> {
         return Err("replay needs the plain flavour (VERIF_PLAIN_BIN)".into());
     }
     let all = cases("thorough");
-    let c = all.into_iter().find(|c| c.go == go && c.white == white).unwrap_or(Case { white, go: go.to_string(), limit: u64::MAX, expect_timer: !go.contains("infinite"), clock_case: None });
+    let c = all.into_iter().find(|c| c.go == go && c.white == white).unwrap_or(Case { white, go: go.to_string(), limit: u64::MAX, expect_timer: !go.contains("infinite"), clock_case: None, fen: None });
     let mut acc = Acc::new();
     let b = run_batch(std::slice::from_ref(&c), &mut acc);
     out!("  `{}` ({} to move): allotted {:?} ms, available {} ms", c.go, if white { "white" } else { "black" }, b[0], c.limit);
